@@ -231,6 +231,10 @@ def sortSched : List (Time × Ev) → List (Time × Ev)
   | [] => []
   | x :: xs => insertSched x (sortSched xs)
 
+/-- `self.paste_threshold is not None and num_bytes > self.paste_threshold` -/
+def isPaste (P : Params) (n : Nat) : Bool :=
+  match P.pasteThreshold with | none => false | some th => n > th
+
 /-- fuel that always suffices for the paste loop: each round consumes a byte or returns -/
 def pasteFuel (st : InSt β) : Nat := st.unprocessed.length + st.osbuf.length + 2
 
@@ -264,8 +268,7 @@ where
     let (n, st) := nonblockingRead P st
     if n == 0 then (.ok none, st, ag)
     else
-      let isPaste := match P.pasteThreshold with | none => false | some th => n > th
-      if isPaste then
+      if isPaste P n then
         let (r, st) := pasteLoop P gk val (pasteFuel st) [] st
         (r, st, ag)
       else
